@@ -4,7 +4,7 @@ spec = {
   "block_size": int (2^20..2^28), "sector_size": 512|4096, "size": int (multiple of sector_size),
   "seq": [s1, s2] header sequence numbers (current = larger), "bad_other_header": bool (lower copy has a bad signature),
   "regions": {"metadata": MiB offset, "bat": MiB offset}, "region_order": "mb"|"bm", "meta_order": permutation of item indices,
-  "meta_gap": int, "blocks": [[block, state, file_offset_mb], ...]     (states 0,1,2,3,6,7; others default 0)
+  "meta_gap": int, "meta_tail": bool (last item flush with the end of the region), "blocks": [[block, state, file_offset_mb], ...]     (states 0,1,2,3,6,7; others default 0)
   differencing: "has_parent": bool, "locator": [[key, value], ...], "locator_type": guid str (optional),
                 "sb": [[chunk, file_offset_mb], ...], "partial": {"<block>": [[first_sector, count], ...]}  present runs
   "layer": int, "disk_id": 16-byte hex
@@ -219,16 +219,18 @@ def build(spec: dict):
     entries = b""
     placed = {}
     # data placement follows `order`; table order is the reverse of it (both arbitrary)
-    for i in order:
+    for n, i in enumerate(order):
         g, data, fl = items[i]
+        if spec.get("meta_tail") and n == len(order) - 1:
+            pos = MB - len(data)  # the last item ends exactly where the metadata region ends
         placed[i] = pos
         fh.put(meta_off + pos, data)
+        assert pos + len(data) <= MB, "metadata region overflow"
         pos += len(data) + gap
     for i in reversed(order):
         g, data, fl = items[i]
         entries += struct.pack("<16sIIII", g.bytes_le, placed[i], len(data), fl, 0)
     fh.put(meta_off, struct.pack("<8s2sH20s", b"metadata", bytes(2), len(items), bytes(20)) + entries)
-    assert pos <= MB, "metadata region overflow"
 
     # BAT + blocks
     table = {}
